@@ -842,17 +842,50 @@ func (e *Engine) externalMods(call *ssa.CallCommon, ms *ModSet) {
 	}
 }
 
+// rawMode in the visiting set asks for the contract-free summary: bodies are followed through every
+// repository callee, so the result also names the heap maps outside the frame universe that a call can touch.
+var rawMode = new(ssa.Function)
+
+// frame of a contracted callee as seen by a caller: the declared frame inside the universe plus, outside
+// it, the contract-free summary of the body (or "anything outside" when there is no summary)
+func (e *Engine) contractModsOf(c *Contract, f *ssa.Function) *ModSet {
+	ms := e.contractMods(c)
+	if ms.All || c.External || len(e.universe) == 0 {
+		return ms
+	}
+	if f == nil || f.Blocks == nil || !isInRepo(f) {
+		ms.Outside = true
+		return ms
+	}
+	rm := e.fnMods(f, map[*ssa.Function]bool{rawMode: true})
+	if rm.All || rm.Outside {
+		ms.Outside = true
+		return ms
+	}
+	for m := range rm.Maps {
+		if !e.inUniverse(m) {
+			ms.Maps[m] = true
+		}
+	}
+	return ms
+}
+
 func (e *Engine) fnMods(fn *ssa.Function, visiting map[*ssa.Function]bool) *ModSet {
+	raw := visiting[rawMode]
+	cache := e.modsets
+	if raw {
+		cache = e.rawsets
+	}
 	e.mu.Lock()
-	ms0, ok0 := e.modsets[fn]
+	ms0, ok0 := cache[fn]
 	e.mu.Unlock()
 	if ok0 {
 		return ms0
 	}
-	if c, ok := e.contracts[fnName(fn)]; ok && c.ModGiven {
-		ms := e.contractMods(c)
+	if c, ok := e.contracts[fnName(fn)]; ok && c.ModGiven && (!raw || c.External) {
+		ms := e.contractModsOf(c, fn)
 		e.mu.Lock()
-		e.modsets[fn] = ms
+		cache[fn] = ms
 		e.mu.Unlock()
 		return ms
 	}
@@ -870,9 +903,13 @@ func (e *Engine) fnMods(fn *ssa.Function, visiting map[*ssa.Function]bool) *ModS
 		}
 	}
 	delete(visiting, fn)
-	if len(visiting) == 0 || (len(visiting) == 1) {
+	n := len(visiting)
+	if raw {
+		n--
+	}
+	if n <= 1 {
 		e.mu.Lock()
-		e.modsets[fn] = ms
+		cache[fn] = ms
 		e.mu.Unlock()
 	}
 	return ms
@@ -940,7 +977,7 @@ func (e *Engine) callMods(call *ssa.CallCommon, ms *ModSet, visiting map[*ssa.Fu
 	if call.IsInvoke() {
 		key := "(" + normName(types.TypeString(call.Value.Type(), nil)) + ")." + call.Method.Name()
 		if c, ok := e.contracts[key]; ok && c.ModGiven {
-			ms.add(e.contractMods(c))
+			ms.add(e.contractModsOf(c, nil))
 			return
 		}
 		if e.unresolved != nil {
@@ -968,8 +1005,8 @@ func (e *Engine) callMods(call *ssa.CallCommon, ms *ModSet, visiting map[*ssa.Fu
 			ms.Maps["MH_"+k] = true
 		}
 	case *ssa.Function:
-		if c, ok := e.contracts[fnName(f)]; ok && c.ModGiven {
-			ms.add(e.contractMods(c))
+		if c, ok := e.contracts[fnName(f)]; ok && c.ModGiven && (!visiting[rawMode] || c.External) {
+			ms.add(e.contractModsOf(c, f))
 			return
 		}
 		if isInRepo(f) && f.Blocks != nil {
